@@ -1276,8 +1276,41 @@ class Scenario(object):
             acc.see('C05:cells', '%s/%s' % (self.cfg['fee'][0], side))
             if self.cfg['fee'][0] == 'pct' and (c + x) > 0:
                 self.flags.add('c05-' + side)
-        # boundary: cash moved by exactly -(p*q + commission) over the update
-        # (checked in finish_update_c05 with before/after snapshots)
+        # the commission as the portfolio's ledger shows it: debit - price x quantity for a buy, proceeds - credit for a sale
+        for pid in sorted({d['pid'] for d in delivered}):
+            mine = [d for d in delivered if d['pid'] == pid]
+            hist = self.broker.portfolios[pid].history
+            used = set()
+            for d in mine:
+                if (pid, d['order_id']) not in byid:
+                    continue
+                r = byid[(pid, d['order_id'])]
+                ev = None
+                for k_ in range(len(hist) - 1, max(-1, len(hist) - 40), -1):
+                    e_ = hist[k_]
+                    if k_ in used or e_.type != 'asset_transaction' or e_.dt != d['dt']:
+                        continue
+                    tok = e_.description.split(' ')
+                    try:
+                        same_fill = float(tok[1]) == float(d['qty']) and tok[2] == d['asset'].upper()
+                    except (ValueError, IndexError):
+                        same_fill = False
+                    if same_fill:
+                        ev = e_
+                        used.add(k_)
+                        break
+                if ev is None or r['qty'] != d['qty'] or r['asset'] != d['asset']:
+                    continue
+                price, exact, comms = self.expected_fill(t, r)
+                implied = (F(ev.debit) - exact) if r['qty'] > 0 else (-exact - F(ev.credit))
+                if (r['qty'] > 0 and ev.credit != 0) or (r['qty'] < 0 and ev.debit != 0):
+                    continue        # the side of the entry is C01's subject
+                if not any(abs(implied - w) <= Fraction(51, 10000) + abs(w) * Fraction(1, 10 ** 9) for w in comms.values()):
+                    side = 'buy' if r['qty'] > 0 else 'sell'
+                    self.viol('C05', 'ledger-commission/%s' % side, 'the history entry of the %s of %r %s @ %r shows debit %r credit %r, '
+                              'i.e. a commission of %r; the fee model gives %s' % (side, r['qty'], r['asset'], float(price), ev.debit,
+                                                                                  ev.credit, float(implied), [float(w) for w in comms.values()]))
+                acc.count('C05:ledger_commissions_checked')
 
     def finish_update_c05(self, op, before, after):
         t = ts(op[1]) if op[0] == 'update' else ts(op[3])
